@@ -155,11 +155,8 @@ Definition gate_ok (c : case_C20) (g : gobs) : bool :=
         | _ => true
         end
       else
-        negb (g_changed g)
-        && match g_kind g with
-           | GGet false => is_err (g_res g)
-           | _ => res_str_eqb (g_res g) (Err EIncompatibleSchemaVersion)
-           end
+        (* every entry point, search=False included: the property text exempts none *)
+        negb (g_changed g) && res_str_eqb (g_res g) (Err EIncompatibleSchemaVersion)
   end.
 
 Definition jobrec_eqb (a b : jobrec) : bool :=
